@@ -204,6 +204,7 @@ def runCompose (scn : Json) : Json × Bool × String :=
   (out, ok, if ok then "" else "C10:unrendered-applied")
 
 def handler : Handler := fun scn =>
+  if str scn "ood" != "" then .error s!"outside the model's domain: {str scn "ood"}" else
   match str scn "kind" with
   | "patch" => .ok (runPatch scn)
   | "resolve" => .ok (runResolve scn)
